@@ -31,6 +31,11 @@ def generators():
     except ImportError:
         pass
     try:
+        from . import dbprog
+        gens['DbProgGen'] = dbprog.generate
+    except ImportError:
+        pass
+    try:
         from . import genir
         gens['IRGen'] = genir.generate
     except ImportError:
